@@ -25,6 +25,9 @@ type Observer struct {
 	labels []string // label alphabet for Allows
 	depth  int
 
+	// IgnoreLabels lists field labels that are not part of the observation (e.g. the helper
+	// definition _#def that the exporter adds to keep a value closed).
+	IgnoreLabels map[string]bool
 	// NoNewProbe disables the "what would a new field be constrained to" probe.
 	NoNewProbe bool
 	// Panics collects panics raised by cue API calls made by probes (stack top inside cue).
@@ -83,6 +86,31 @@ func (o *Observer) obs(v cue.Value, depth int) string {
 		return "_|_(" + c + ")"
 	}
 	k := v.IncompleteKind()
+	if args := disjuncts(v); len(args) > 1 && depth < 10 {
+		// an unresolved disjunction is observed as the set of its distinct (projected) disjuncts;
+		// in raw mode its default, if any, is part of the observation.  The disjuncts are read from
+		// the evaluated value (adt.Disjunction), not from the source expression, so that the
+		// observation does not depend on how the value was written.
+		set := map[string]bool{}
+		for _, a := range args {
+			set[o.obs(a, depth+1)] = true
+		}
+		var parts []string
+		for p := range set {
+			parts = append(parts, p)
+		}
+		sort.Strings(parts)
+		if len(parts) == 1 {
+			return parts[0]
+		}
+		def := ""
+		if o.mode == "raw" {
+			if d, ok := v.Default(); ok {
+				def = "|default=" + o.obs(d, depth+1)
+			}
+		}
+		return "OR(" + strings.Join(parts, " | ") + def + ")"
+	}
 	if _, n := value.ToInternal(v); n != nil {
 		if b, ok := n.BaseValue.(*adt.Bottom); ok && b != nil && b.ChildError && len(n.Arcs) > 0 {
 			return o.arcsObs(v, n, depth)
@@ -150,12 +178,18 @@ func (o *Observer) structObs(v cue.Value, depth int) string {
 	if o.mode == "final" {
 		opts = []cue.Option{cue.Optional(false), cue.Definitions(false), cue.Hidden(false)}
 	}
+	if o.mode == "finaldefs" { // what `cue eval` shows: defaults taken, definitions shown
+		opts = []cue.Option{cue.Optional(false), cue.Definitions(true), cue.Hidden(false)}
+	}
 	it, err := v.Fields(opts...)
 	if err != nil {
 		return "_|_(fields:" + ErrClass(v) + ")"
 	}
 	for it.Next() {
 		sel := it.Selector()
+		if o.IgnoreLabels[sel.String()] {
+			continue
+		}
 		parts = append(parts, sel.String()+":"+o.obs(it.Value(), depth+1))
 	}
 	sort.Strings(parts)
@@ -167,7 +201,13 @@ func (o *Observer) structObs(v cue.Value, depth int) string {
 				al = append(al, l)
 			}
 		}
-		extra = fmt.Sprintf("|closed=%v allows=%s any=%v", v.IsClosed(), strings.Join(al, ","), v.Allows(cue.AnyString))
+		anyStr := v.Allows(cue.AnyString)
+		if anyStr && len(al) == len(o.labels) {
+			// open to every field (ellipsis / open struct): the IsClosed bit carries no membership information
+			extra = "|open"
+		} else {
+			extra = fmt.Sprintf("|closed=%v allows=%s any=%v", v.IsClosed(), strings.Join(al, ","), anyStr)
+		}
 		// pattern constraints: observe what a fresh matching field would be constrained to
 		for _, l := range o.labels {
 			if o.NoNewProbe {
@@ -303,4 +343,21 @@ func (o *Observer) newProbe(v cue.Value, l string, depth int) (out string) {
 		return "|new." + l + "=" + o.obs(fv, depth+4)
 	}
 	return ""
+}
+
+// disjuncts returns the disjuncts of an evaluated, unresolved disjunction (nil otherwise).
+func disjuncts(v cue.Value) []cue.Value {
+	r, n := value.ToInternal(v)
+	if n == nil {
+		return nil
+	}
+	d, ok := n.DerefValue().BaseValue.(*adt.Disjunction)
+	if !ok || d == nil {
+		return nil
+	}
+	var out []cue.Value
+	for _, x := range d.Values {
+		out = append(out, value.Make(adt.NewContext(r, n), x))
+	}
+	return out
 }
